@@ -31,6 +31,7 @@ type xl struct {
 	opaque   map[string]string
 	opaquePs []xlParam
 	touched  map[string]bool // flattened-receiver / opaque parameters referenced (loops capture them)
+	usesRec  bool            // a self-call was translated (translate_rec.go)
 }
 
 type xlParam struct{ name, typ string }
@@ -193,6 +194,9 @@ func (x *xl) calleeMonadic(c *ast.CallExpr) bool {
 	if d := x.lookupDone(fn); d != nil {
 		return d.monadic
 	}
+	if x.f.Rec && fn == x.p.info.Defs[x.fd.Name] {
+		return true
+	}
 	for _, o := range x.f.Opaque {
 		if o == funcKey(fn) {
 			return true
@@ -287,6 +291,15 @@ func (x *xl) expr(e ast.Expr) ([]string, string, error) {
 			return nil, "", err
 		}
 		switch y.Op {
+		case token.AND:
+			// &x of a local variable: pointer identity is not modelled (translate_rec.go)
+			if id, ok := y.X.(*ast.Ident); ok {
+				if v, ok := info.Uses[id].(*types.Var); ok && !v.IsField() && v.Parent() != v.Pkg().Scope() {
+					if _, ok := v.Type().Underlying().(*types.Basic); ok {
+						return b, "(some " + s + ")", nil
+					}
+				}
+			}
 		case token.NOT:
 			return b, "(!" + s + ")", nil
 		case token.SUB:
@@ -708,7 +721,13 @@ func (x *xl) call(c *ast.CallExpr) ([]string, string, error) {
 	}
 	fn := x.calleeFunc(c)
 	if fn == nil {
+		if bs, v, ok, err := x.funcValueCall(c); ok {
+			return bs, v, err
+		}
 		return nil, "", x.errf(c, "call of a non-function")
+	}
+	if bs, v, ok, err := x.flatCall(c, fn); ok {
+		return bs, v, err
 	}
 	// standard library
 	if fn.Pkg() != nil && !strings.HasPrefix(fn.Pkg().Path(), xlModule) {
